@@ -20,7 +20,6 @@ import (
 	"fmt"
 	"io"
 	"os"
-	"path"
 	"path/filepath"
 	"runtime"
 	"sort"
@@ -726,7 +725,7 @@ func openOutputFile(outputName, inputName string, overwrite bool) (*os.File, err
 		if err != nil && os.IsNotExist(err) {
 			// The folder does not exist yet (sub-folder of an output directory):
 			// attempt to create the full folder hierarchy to file, as in overwrite mode
-			if err = os.MkdirAll(path.Dir(strings.ReplaceAll(outputName, "\\", "/")), os.ModePerm); err == nil {
+			if err = os.MkdirAll(filepath.Dir(outputName), os.ModePerm); err == nil {
 				output, err = os.OpenFile(outputName, os.O_WRONLY|os.O_CREATE|os.O_EXCL, 0666)
 			}
 		}
@@ -750,7 +749,7 @@ func openOutputFile(outputName, inputName string, overwrite bool) (*os.File, err
 
 	if err != nil {
 		// Attempt to create the full folder hierarchy to file
-		if err = os.MkdirAll(path.Dir(strings.ReplaceAll(outputName, "\\", "/")), os.ModePerm); err == nil {
+		if err = os.MkdirAll(filepath.Dir(outputName), os.ModePerm); err == nil {
 			output, err = os.OpenFile(outputName, os.O_WRONLY|os.O_CREATE|os.O_TRUNC, 0666)
 		}
 	}
